@@ -128,7 +128,7 @@ let run_script (toks : string list) : string =
      | ["S"; k; tmo] ->
          (* the caller's task runs to its first await: it allocates the id, queues the request and polls its reply channel once *)
          let o = nops () in
-         apply (Start (kind_of_string k, (if tmo = "-" then None else Some (z_of_decimal tmo))));
+         apply (Start (kind_of_string k, (if tmo = "-" then None else if tmo = "max" then Some (z_of_decimal "18446744073709551615000") else Some (z_of_decimal tmo))));
          if nops () > o then apply (CliPoll (nat_of_int o))
      | ["R"; mid; k; t] -> if not !partial then apply (ServerSend { r_mid = z_of_decimal mid; r_kind = rkind_of_string k; r_tok = nat_of_int (int_of_string t) })
      | ["B"; _; _; _] -> partial := true
